@@ -662,6 +662,8 @@ TARGETS = [
      dict(params=[('other', 'other', 'P')], consts=ARK_CONSTS, calls={}, self_is='self', mk='mk', sig='(self other : pt) : bool', selfty='P')),
   ('ark_is_identity', 'src/ark_curve/element/projective.rs', 'is_identity', {},
      dict(params=[], consts=ARK_CONSTS, calls={}, self_is='self', mk='mk', sig='(self : pt) : bool', selfty='P')),
+  ('fq_power', 'src/fields/fq.rs', 'power', {},
+     dict(params=[('exp', 'exp', 'LZ')], consts=dict(MIN_CONSTS), calls={}, self_is='self', mk='mk', sig='(self : F) (exp : list Z) : F', selfty='F')),
   ('min_pow_le_limbs', 'src/min_curve/invsqrt.rs', 'pow_le_limbs', {},
      dict(params=[('limbs', 'limbs', 'LZ')], consts=MIN_CONSTS, calls={}, self_is='self', mk='mk', sig='(self : F) (limbs : list Z) : F', selfty='F')),
   ('min_our_sqrt', 'src/min_curve/invsqrt.rs', 'our_sqrt', {},
